@@ -121,6 +121,21 @@ def run(model: RepoModel, rep, tier: str):
     pushed = any(isinstance(n, ast.Call) and isinstance(n.func, ast.Attribute) and n.func.attr in ("add", "push") and "frame_stack" in norm(n.func.value)
                  and n.args and (isinstance(n.args[0], ast.Name) or (isinstance(n.args[0], ast.Call) and (call_name(n.args[0]) or "").endswith("ComputeFrame")))
                  for n in walk_no_nested(afs.node))
+    # what the caller's frame keeps FOR the callee (`callee_<x>`, filled from the interruption) is what the callee's frame is built
+    # from; passing the caller's own `<x>` hands the callee the caller's receiver classes
+    cf_cls = model.module("common_structs.py").classes.get("ComputeFrame")
+    cf_attrs = {t.attr for a in walk_no_nested(cf_cls.methods["__init__"].node) if isinstance(a, ast.Assign) for t in a.targets if is_self_attr(t)} if cf_cls else set()
+    for c in frames:
+        for k in c.keywords:
+            if k.arg and isinstance(k.value, ast.Attribute) and isinstance(k.value.value, ast.Name) and f"callee_{k.arg}" in cf_attrs:
+                key2 = f"{GS}::analyze_frame_stack::callee frame `{k.arg}` comes from the caller frame's `callee_{k.arg}`"
+                if k.value.attr == f"callee_{k.arg}":
+                    rep.holds("C07.R2", key2, GS, k.value.lineno, f"`{k.arg} = {norm(k.value)}`")
+                else:
+                    rep.violation("C07.R2", key2, GS, k.value.lineno,
+                                  f"the callee's frame is created with `{k.arg} = {norm(k.value)}`, the CALLER's own value; what the call site determined for "
+                                  f"the callee is kept in `{norm(k.value.value)}.callee_{k.arg}`: an inherited method analysed for a subclass instance no "
+                                  f"longer knows the run-time class of `self`, so calls through `self` to methods the subclass overrides or adds get no edge")
     if src_ok and frame_ok and pushed:
         rep.holds("C07.R2", key, GS, afs.node.lineno, "CallSite(data.caller_id, data.call_stmt_id, callee_id) per callee id; ComputeFrame(method_id=key.callee_id, ...) pushed")
     else:
@@ -220,6 +235,9 @@ def run(model: RepoModel, rep, tier: str):
     check_summary_accumulates(model, rep, "C07.R6", declare=True)
     _r7_inherited_methods(model, rep)
     _r8_call_site_budget(model, rep, "C07.R8")
+    # calls through imports from other analysed files: the import resolution rules of C05.R7 are necessary conditions here too
+    from .c05 import _r7 as _imports
+    _imports(model, rep, "C07.R9")
 
 
 TH = "basics/type_hierarchy.py"
